@@ -5,4 +5,7 @@ import blocklib
 
 
 def main(ctx, replay=None):
+    if not replay:
+        import ctlhalf
+        ctlhalf.run(ctx, ctx.pid)          # controller half first; violations are collected in ctx
     blocklib.main_for(ctx, replay)
